@@ -102,11 +102,13 @@ def rand_runner_case(rng):
             "status": rng.choice([200, 404, 429, 500, 503])}
 
 
-def execute(ctx, binary, cases, tag):
+def execute(ctx, binary, cases, tag, workers=0):
+    """one event per case.  The executor retains the encoded actions of every transaction and decodes them only after the whole
+    batch was encoded.  workers > 0: the (routing) cases are encoded by that many concurrent goroutines."""
     d = ctx.sub("run-" + tag)
     cp, tp = os.path.join(d, "cases.json"), os.path.join(d, "trace.ndjson")
     json.dump(cases, open(cp, "w"))
-    ctx.run_harness(binary, ["run", cp, tp])
+    ctx.run_harness(binary, ["conc", cp, tp, str(workers)] if workers else ["run", cp, tp])
     ev = read_ndjson(tp)
     if len(ev) != len(cases):
         raise Broken("executor returned %d events for %d cases" % (len(ev), len(cases)))
@@ -147,29 +149,55 @@ def judge(ctx, binary, cases, events, tag, seen):
             seen.add(key)
             if nontrivial(e):
                 ctx.cov["distinct_nontrivial"] += 1
-    done_h = set()
+    done_h, last = set(), -100
     for i in rej[:40]:
         h = cases[i].get("h", 0)
-        if h:
-            if h in done_h:
-                continue
-            done_h.add(h)
-            j = i
-            while j > 0 and cases[j - 1].get("h", 0) == h:
-                j -= 1
-            hist = [dict(c, id=k, h=1) for k, c in enumerate(cases[j:i + 1])]
-        else:
-            hist = [dict(cases[i], id=0)]
+        if (h and h in done_h) or i < last + 40:
+            continue
+        done_h.add(h)
+        last = i
+        j = i
+        while h and j > 0 and cases[j - 1].get("h", 0) == h:
+            j -= 1
+        # the case with what preceded it in its history and with the transactions encoded after it (their encoding must not
+        # change what was handed back for this one)
+        hids = {}
+        hist = [dict(c, id=k, h=hids.setdefault(c.get("h", 0), len(hids) + 1) if c.get("h", 0) else 0)
+                for k, c in enumerate(cases[j:i + 40])]
         ev2 = execute(ctx, binary, hist, tag + "-repro")
         r2 = judge_cases(ctx, SPEC, "ActionsTrace", ev2, tag + "-repro")
         if not r2:
             raise Broken("rejection not reproduced (%s): %s" % (tag, json.dumps(events[i])[:800]))
-        w = witness_of(ev2[r2[0]])
-        if h:
+        n = r2[0]
+        w = witness_of(ev2[n])
+        if not ev2[n].get("stable", True):
+            w["class"] += "-encoded-actions-changed-after-later-transactions-were-encoded"
+        elif h:
             w["class"] += "-in-a-history-of-folds-over-shared-action-objects"
-            w["folds_before"] = [[a["k"] for a in c["seq"]] for c in hist[:r2[0]]]
+            w["folds_before"] = [[a["k"] for a in c["seq"]] for c in hist[:n] if c.get("h")]
         ctx.violation(w, {"history": hist, "events": ev2, "rejected": r2})
     return rej
+
+
+def judge_conc(ctx, binary, cases, workers, seen):
+    """the encoders called from concurrent goroutines; every transaction judged on its own by ActionsTrace"""
+    events = execute(ctx, binary, cases, "conc", workers=workers)
+    rej = judge_cases(ctx, SPEC, "ActionsTrace", events, "conc")
+    ctx.cov["evaluations"] += len(events)
+    ctx.cov["traces_validated_against_impl"] += len(events) - len(rej)
+    if rej:
+        for attempt in range(20):
+            ev2 = execute(ctx, binary, cases, "conc-repro", workers=workers)
+            r2 = judge_cases(ctx, SPEC, "ActionsTrace", ev2, "conc-repro")
+            if r2:
+                w = witness_of(ev2[r2[0]])
+                w["class"] += "-under-concurrent-encoding"
+                w["workers"], w["attempts"] = workers, attempt + 1
+                ctx.violation(w, {"conc": cases, "workers": workers, "event": ev2[r2[0]]})
+                break
+        else:
+            raise Broken("concurrent rejection not reproduced in 20 attempts: %s" % json.dumps(events[rej[0]])[:600])
+    return events, rej
 
 
 def rand_history(rng):
@@ -286,6 +314,26 @@ def run(ctx):
     k = next(i for i, e in enumerate(events) if e["via"] == "runner" and nontrivial(e))
     ctx.sample({"kind": "runner-case", "remedies": events[k]["remedies"], "observed_actions": events[k]["seq"], "real_out": events[k]["out"]})
 
+    # (3b) the encoders under concurrent transactions: seeded random sequences (every kind of result on both sides) encoded by
+    # 8 goroutines, each transaction's retained actions read when its goroutine is done
+    cc = [rand_routing_case(ctx.rng, 5) for _ in range(3000 if not T else 30000)]
+    for i, c in enumerate(cc):
+        c["id"] = i
+    cev, crej = judge_conc(ctx, binary, cc, 8, seen)
+    kinds_out = {}
+    for e in events + cev:
+        o = e["out"]
+        k = "early" if o["early"] else "modresp" if o["modresp"] else "retry" if o["retry"] else "gen" if o["gen"] else \
+            "modreq" if o["modreq"] else "modh" if o["names"] else "noop"
+        kinds_out[k] = kinds_out.get(k, 0) + 1
+    if not ctx.violations and any(not kinds_out.get(k) for k in ("early", "modresp", "retry", "gen", "modreq", "modh", "noop")):
+        raise Broken("a kind of encoded result never occurred (vacuous): %s" % kinds_out)
+    unstable = sum(1 for e in events + cev if not e.get("stable", True))
+    ctx.log("concurrent encoding: %d transactions by 8 goroutines, %d rejected; encoded results by kind %s; results that changed after "
+            "the call returned: %d" % (len(cc), len(crej), kinds_out, unstable))
+    ctx.notes.append("every transaction's encoded actions are retained and decoded only after the whole batch (and, concurrently, the "
+                     "goroutine's share) was encoded")
+
     # (4) binding self-test: corrupted recordings of accepted cases must be rejected by the spec
     src = [e for i, e in enumerate(gen_events) if nontrivial(e) and i not in gen_rejected]
     def pick(pred):
@@ -320,8 +368,15 @@ def run(ctx):
 def replay(ctx, path):
     obj = json.load(open(path))
     binary = ctx.build_harness("c07")
-    hist = obj["replay"].get("history") or [obj["replay"]["case"]]
-    ev = execute(ctx, binary, hist, "replay")
+    r = obj["replay"]
+    if "conc" in r:
+        for attempt in range(20):
+            ev = execute(ctx, binary, r["conc"], "replay", workers=r["workers"])
+            if judge_cases(ctx, SPEC, "ActionsTrace", ev, "replay"):
+                break
+        ev = [e for i, e in enumerate(ev) if i in set(judge_cases(ctx, SPEC, "ActionsTrace", ev, "replay2"))][:3] or ev[:1]
+    else:
+        ev = execute(ctx, binary, r.get("history") or [r["case"]], "replay")
     for e in ev:
         print(json.dumps(e))
     rj = judge_cases(ctx, SPEC, "ActionsTrace", ev, "replay")
